@@ -83,7 +83,9 @@ pub enum Probe {
 pub enum Op {
     StartFen { text: String },
     /// 64-char placement ('.' = empty, FEN letters), side, castling mask (bit0 K,1 Q,2 k,3 q), ep file or 8
-    StartBuilder { placement: String, stm: Col, castle: u8, ep_file: u8 },
+    /// order: bit0 = en-passant file set before the side to move, bit1 = rights before pieces,
+    /// bit2 = side to move first set to the other colour and corrected at the end, bit3 = BoardBuilder::setup(...) instead of setters
+    StartBuilder { placement: String, stm: Col, castle: u8, ep_file: u8, order: u8 },
     /// model-side start: the reference model's standard FEN for a generated position (reaches the
     /// server through FEN text or through BoardBuilder)
     ClientAct { c: usize, act: CAct },
@@ -100,7 +102,7 @@ pub enum Op {
     /// text validation surface (C07/C09): a FEN-like text to Board::from_str / BoardBuilder::from_str / Game::from_str
     Validate { text: String },
     /// arbitrary builder state to Board::try_from (C07)
-    ValidateBuilder { placement: String, stm: Col, castle: u8, ep_file: u8 },
+    ValidateBuilder { placement: String, stm: Col, castle: u8, ep_file: u8, order: u8 },
     /// sibling pair (C08/C09): two FENs whose hashes are compared (equal positions => equal, different => different)
     Pair { a: String, b: String },
     /// decode arbitrary text as SAN against a position given by FEN (C12 totality), or as UCI / square (C13)
@@ -292,8 +294,8 @@ impl Step {
         );
         let body = match &self.op {
             Op::StartFen { text } => format!("start_fen text={}", enc(text)),
-            Op::StartBuilder { placement, stm, castle, ep_file } => {
-                format!("start_builder pl={} stm={} castle={} ep={}", enc(placement), col_s(*stm), castle, ep_file)
+            Op::StartBuilder { placement, stm, castle, ep_file, order } => {
+                format!("start_builder pl={} stm={} castle={} ep={} order={}", enc(placement), col_s(*stm), castle, ep_file, order)
             }
             Op::ClientAct { c, act } => format!("client c={} {}", c, cact_s(act)),
             Op::ArbiterAct { act } => format!("arbiter {}", cact_s(act)),
@@ -324,8 +326,8 @@ impl Step {
                 Probe::Position => "probe what=position".into(),
             },
             Op::Validate { text } => format!("validate text={}", enc(text)),
-            Op::ValidateBuilder { placement, stm, castle, ep_file } => {
-                format!("validate_builder pl={} stm={} castle={} ep={}", enc(placement), col_s(*stm), castle, ep_file)
+            Op::ValidateBuilder { placement, stm, castle, ep_file, order } => {
+                format!("validate_builder pl={} stm={} castle={} ep={} order={}", enc(placement), col_s(*stm), castle, ep_file, order)
             }
             Op::Pair { a, b } => format!("pair a={} b={}", enc(a), enc(b)),
             Op::DecodeSan { fen, text } => format!("decode_san fen={} text={}", enc(fen), enc(text)),
@@ -389,6 +391,7 @@ impl Step {
                 stm: col_p(g("stm")?)?,
                 castle: gu("castle")? as u8,
                 ep_file: gu("ep")? as u8,
+                order: gu("order").unwrap_or(0) as u8,
             },
             "client" => Op::ClientAct { c: gu("c")? as usize, act: cact()? },
             "arbiter" => Op::ArbiterAct { act: cact()? },
@@ -467,6 +470,7 @@ impl Step {
                 stm: col_p(g("stm")?)?,
                 castle: gu("castle")? as u8,
                 ep_file: gu("ep")? as u8,
+                order: gu("order").unwrap_or(0) as u8,
             },
             "pair" => Op::Pair { a: gs("a")?, b: gs("b")? },
             "decode_san" => Op::DecodeSan { fen: gs("fen")?, text: gs("text")? },
